@@ -192,7 +192,19 @@ func VerifH_C15_Arrays() {
 	fa, aa := c15Array(n)
 	fb, ab := c15Array(m)
 	doc := map[string]interface{}{"a": aa, "b": ab}
-	switch verifChoose(5) {
+	switch verifChoose(6) {
+	case 5:
+		// an empty argument in any position caps the number of pairs at zero
+		e := []string{`$zip([], a)`, `$zip(a, [])`, `$zip(a, [], b)`, `$zip([], [], a)`, `$zip([], b, a)`, `$zip([])`, `$count($zip([], 1))`}[verifChoose(7)]
+		got := hEval(e, doc)
+		switch x := got.val.(type) {
+		case []interface{}:
+			verifAssert(got.kind == oValue && len(x) == 0, "zip-empty-argument-no-pairs")
+		case int:
+			verifAssert(got.kind == oValue && x == 0, "zip-empty-argument-no-pairs")
+		default:
+			verifAssert(got.kind == oUndefined, "zip-empty-argument-no-pairs")
+		}
 	case 0:
 		l, ok := c15List(hEval(`$append(a, b)`, doc))
 		verifAssert(ok && c15SameList(l, append(append([]float64{}, fa...), fb...)), "append-concatenates")
